@@ -228,6 +228,12 @@ class SU(_Scalar):
         self.pytype = pytype
 
 
+# A job may ask for products of two non-constant integers to be abstracted by an uninterpreted function (sound: only
+# congruence is kept), which keeps non-linear integer arithmetic out of queries that carry quantified hypotheses.
+ABSTRACT_INT_PRODUCTS = [False]
+IMUL = z3.Function("imul", z3.IntSort(), z3.IntSort(), z3.IntSort())
+
+
 def binop(op, a, b):
     if isinstance(a, (SArr,)) or isinstance(b, (SArr,)):
         return SArr.elementwise(op, a, b)
@@ -242,6 +248,8 @@ def binop(op, a, b):
     if op == "-":
         return wrap(ta - tb)
     if op == "*":
+        if ABSTRACT_INT_PRODUCTS[0] and not real and not z3.is_int_value(z3.simplify(ta)) and not z3.is_int_value(z3.simplify(tb)):
+            return wrap(IMUL(ta, tb))
         return wrap(ta * tb)
     if op == "/":
         return wrap(z3.ToReal(ta) / z3.ToReal(tb) if not real else (z3.ToReal(ta) if not _is_real(ta) else ta) / (z3.ToReal(tb) if not _is_real(tb) else tb))
